@@ -144,6 +144,17 @@ class SetV:
         return "Set" + repr(list(self.items))
 
 
+class FreeSetV:
+    """a set given only by its membership predicate (python callable value -> bool | z3 Bool): 'any set at all'"""
+    __slots__ = ("pred", "label")
+
+    def __init__(self, pred, label=""):
+        self.pred, self.label = pred, label
+
+    def __repr__(self):
+        return f"FreeSet({self.label})"
+
+
 class MapV:
     __slots__ = ("keys", "vals")
 
